@@ -493,7 +493,7 @@ Ev(e, f, s0) ==
          IF ~IsVal(c) THEN c
          ELSE IF c.v[1] \notin {"clo", "bi"}
               THEN (IF Len(e[3]) = 0 THEN c        \* a non-function in head position with no arguments is itself
-                    ELSE LET r == EvArgs(e[3], 1, <<>>, <<>>, f, c.s) IN IF ~IsVal(r) THEN r ELSE ErrR("notfn", r.s))
+                    ELSE ErrR("notfn", c.s))        \* with arguments it is refused before any argument is evaluated
               ELSE LET r == EvArgs(e[3], 1, <<>>, LazyMask(c.v, c.s), f, c.s) IN
                    IF ~IsVal(r) THEN r ELSE Call(c.v, r.v, r.s)
     [] e[1] = "assert" ->
